@@ -382,8 +382,8 @@ def evaluate__pow(self: XPathFunction, context: ta.ContextType = None) -> ta.One
 
     try:
         return float(x ** y)
-    except TypeError:
-        return math.nan
+    except (TypeError, decimal.InvalidOperation):
+        return math.nan  # e.g. a negative base with a fractional exponent
     except OverflowError:
         return math.inf if x > 0 or y % 2 == 0 else -math.inf
 
